@@ -134,6 +134,14 @@ let () =
              | _ -> false) r.ds_published in
          Printf.printf "panicked=%s published=%d reader_start_set=%s rewrote=%s\n" (if r.ds_panicked then "1" else "0")
            (List.length r.ds_published) (match r.ds_reader_start with Some _ -> "1" | None -> "0") (if rewrote then "1" else "0")
+       | ["probe"; pfl; se; config; caps] ->
+         (* discovery level: probe <by_pointer><config_checked><caps_checked> <closed|failed> <config> <caps>
+            config/caps = none (SendFor failed) | with (reply received, carries the wanted parameter) | without
+            answer: err | info:<caps known 0/1> | panic *)
+         let fl = { by_pointer = (pfl.[0] = '1'); config_nil_checked = (pfl.[1] = '1'); caps_nil_checked = (pfl.[2] = '1') } in
+         let rp = function "with" -> Some true | "without" -> Some false | _ -> None in
+         print_endline (match probe_after fl (if se = "closed" then SeClosedByUs else SeFailed) (rp config) (rp caps) with
+             | PoErr -> "err" | PoInfo k -> if k then "info:1" else "info:0" | PoPanic -> "panic")
        | [""] -> ()
        | _ -> print_endline "error: bad request")
     done
